@@ -1,5 +1,7 @@
 package main
 
+import "go/types"
+
 // Layered typed heap: four arrays (8/16/32/64-bit cells) indexed by slot address.
 // Reads are rewritten over the layers at generation time (read-over-write), so SMT only
 // ever sees `select` on free base arrays.
@@ -34,6 +36,8 @@ type Region struct {
 	size  *Term
 	fresh bool // allocated during this execution (disjoint from everything registered earlier)
 	seq   int
+	T     types.Type // allocation type of a local (Alloc); nil otherwise
+	n     uint64
 }
 
 // addrRoot finds the base symbol of an address in base+offset normal form.
